@@ -229,6 +229,16 @@ def timeToUsec : Dbl → Option Nat
   | .inf _ => none
   | .nan _ => none
 
+/-- the conversion of the code BEFORE repair F24, `(usec_t)(USEC * v)`: truncation (defined only
+    where C defines the conversion).  Kept to state what was wrong (`Props/C18.lean`). -/
+def timeToUsecOld : Dbl → Option Nat
+  | .fin _ m e =>
+    match roundRat ((ratOf m e).1 * 1000000) (ratOf m e).2 with
+    | none => none
+    | some p => if (ratOf p.m p.e).1 < 2 ^ 64 * (ratOf p.m p.e).2 then some ((ratOf p.m p.e).1 / (ratOf p.m p.e).2) else none
+  | .inf _ => none
+  | .nan _ => none
+
 /-! ### modelled libc: strtod (C locale) -/
 
 structure StrtodRes where
